@@ -204,6 +204,13 @@ def p_oracle(prop, tier):
             # complete enumeration of all f32 rounding boundaries in the default configuration
             jobs.append(Job("eng_parse", "default", "rel", shards=16, budget=B(900), args=["--tier", tier, "--midpoints", "1", "--midpoints-budget", "0.97"], name="eng_parse-default-rel-allmidpoints", timeout=4000))
         rc = 400000
+    if prop == "C01":
+        # platform independence of the value: the same seeded inputs on a 32-bit target (32-bit limbs in the big-integer path),
+        # executed by Miri for i686, must give the bits of the native x86_64 run (which the oracle judges)
+        cnt = str(int((60 if tier == "quick" else 1500) * common.budget_scale()))
+        for c in (["default"] if tier == "quick" else ["default", "alloc", "compact"]):
+            jobs.append(Job("eng_mem", c, "rel", instr="miri-sb-i686", shards=2 if tier == "quick" else 4, budget=30000, args=["--max-evals", cnt, "--valid-only", "1"], timeout=1800 if tier == "quick" else 7200))
+            jobs.append(Job("eng_mem", c, "rel", shards=2 if tier == "quick" else 4, budget=30000, args=["--max-evals", cnt, "--valid-only", "1"], name="eng_mem-%s-rel-twin" % c))
     what = {
         "C01": "f64 inputs",
         "C02": "f32 inputs (incl. double-rounding probes: cases where rounding via f64 first gives another f32)",
@@ -215,6 +222,26 @@ def p_oracle(prop, tier):
             "continued-fraction hard cases and structured random strings, each laid out as integer-only / fraction-only with leading zeros / split; every result judged by the exact oracle. "
             "Non-trivial = not decided by the plain fast path; distinct = distinct 64-bit hash of (integer, fraction, exponent, format), counted per shard over disjoint PRNG streams and summed." % what)
     def post(m, results, cov, violations, inconclusive, workdir, sd):
+        if prop == "C01":
+            nat = {(r.job.cfg, r.idx, r.job.shards): r.summary["extra"].get("result_hash") for r in results if r.summary and r.job.engine == "eng_mem" and r.job.instr == "native"}
+            same = diff = calls = 0
+            for r in results:
+                if r.summary and r.job.engine == "eng_mem" and r.job.instr == "miri-sb-i686":
+                    k = (r.job.cfg, r.idx, r.job.shards)
+                    calls += r.summary["evals"]
+                    if k in nat and nat[k] == r.summary["extra"].get("result_hash"):
+                        same += 1
+                    else:
+                        diff += 1
+                        body = {"property": prop, "engine": "eng_mem", "config": r.job.cfg, "profile": r.job.prof, "instr": r.job.instr, "what": "results on a 32-bit target (i686, 32-bit limbs; executed by Miri) differ from the native x86_64 run of the same inputs",
+                                "hashes": {"native": nat.get(k), "i686": r.summary["extra"].get("result_hash")}, "command": r.cmd,
+                                "shard_replay": {"idx": r.idx, "shards": r.job.shards, "seed": sd, "budget": r.job.budget, "job_args": r.job.args + ["--print-results", "1"], "miriflags": ""}}
+                        path = write_replay(prop, sd, 810000 + diff, body)
+                        violations.append({"sig": "i686-differs:%s:%d" % (r.job.cfg, r.idx), "what": body["what"], "replay": path, "job": r.job.name})
+            cov["i686_32bit_limbs"] = {"parse_float_calls_under_miri_i686": calls, "shards_equal_to_native_x86_64": same, "shards_different": diff}
+            if calls == 0:
+                inconclusive.append("no execution completed on the 32-bit target (miri i686)")
+            return
         if prop != "C02":
             return
         ex = [(jn, e) for (jn, i, e) in m.extras if "f32_midpoint_stride" in e]
@@ -662,16 +689,103 @@ def unsafe_coverage(prop, sd, workdir, cfgs, evals):
             "not_instrumented_in_these_configurations": not_comp}
 
 
+FUZZER = os.path.join(common.VERIF, "fuzzer")
+
+
+def fuzz_build(cfg, debug_assertions=False):
+    """Build the libFuzzer + AddressSanitizer target against the crate's current working tree. Returns (target_dir, error)."""
+    ct = os.path.join(FUZZER, "fuzz", "Cargo.toml")
+    txt = open(ct).read()
+    want = re.sub(r'path = "[^"]*"\n(default-features = false)', 'path = "%s"\n\\1' % common.REPO, txt)
+    if want != txt:
+        open(ct, "w").write(want)
+    tdir = os.path.join(common.BUILD, "fuzz-%s%s" % (cfg.replace("+", "_"), "-dbg" if debug_assertions else ""))
+    cmd = ["cargo", "+nightly", "fuzz", "build", "bytes", "--target-dir", tdir, "--no-default-features", "--features", common.FEATURES[cfg]]
+    if debug_assertions:
+        cmd.append("-a")
+    env = common.base_env()
+    p = subprocess.run(cmd, cwd=FUZZER, env=env, stdout=subprocess.PIPE, stderr=subprocess.STDOUT, text=True)
+    if p.returncode != 0:
+        return tdir, tail(p.stdout, 25)
+    return tdir, None
+
+
+def fuzz_session(prop, sd, workdir, seconds, cfg, violations, inconclusive, debug_assertions=False):
+    """Coverage-guided arbitrary bytes (libFuzzer, value profile, 16 forked workers) into parse_float under
+    AddressSanitizer; clean panics are caught inside the target. A sanitizer report / deadly signal = violation with the
+    crashing input as replay; out-of-memory or timeout of a worker = inconclusive. Returns an evidence dict."""
+    tdir, err = fuzz_build(cfg, debug_assertions)
+    tag = cfg.replace("+", "_") + ("-dbg" if debug_assertions else "")
+    ev = {"configuration": cfg, "debug_assertions": debug_assertions, "seconds": seconds}
+    if err:
+        inconclusive.append("fuzz target does not build against the current tree (%s): %s" % (cfg, err.replace("\n", " | ")[-600:]))
+        return ev
+    corpus = os.path.join(workdir, "fuzz-corpus-" + tag)
+    art = os.path.join(workdir, "fuzz-artifacts-" + tag) + "/"
+    shutil.rmtree(corpus, ignore_errors=True)
+    shutil.copytree(os.path.join(FUZZER, "seeds"), corpus)
+    os.makedirs(art, exist_ok=True)
+    cmd = ["cargo", "+nightly", "fuzz", "run", "bytes", "--target-dir", tdir, "--no-default-features", "--features", common.FEATURES[cfg]] + (["-a"] if debug_assertions else []) + [
+        corpus, "--", "-artifact_prefix=" + art, "-max_total_time=%d" % seconds, "-timeout=10", "-fork=%d" % common.NCPU, "-max_len=1600", "-use_value_profile=1", "-seed=%d" % (sd + 1), "-rss_limit_mb=3000"]
+    env = common.base_env()
+    env["ASAN_OPTIONS"] = "detect_leaks=0:abort_on_error=1:halt_on_error=1"
+    try:
+        p = subprocess.run(cmd, cwd=FUZZER, env=env, stdout=subprocess.PIPE, stderr=subprocess.STDOUT, text=True, errors="replace", timeout=seconds + 300)
+        out = p.stdout
+    except subprocess.TimeoutExpired as e:
+        inconclusive.append("fuzz session (%s) hit its wall-clock watchdog" % cfg)
+        out = (e.stdout or b"").decode("utf-8", "replace") if isinstance(e.stdout, bytes) else (e.stdout or "")
+    last = None
+    for m in re.finditer(r"#(\d+): cov: (\d+) ft: (\d+) corp: (\d+) exec/s:? (\d+) oom/timeout/crash: (\d+)/(\d+)/(\d+)", out):
+        last = m
+    if last:
+        ev.update({"executions": int(last.group(1)), "coverage_edges": int(last.group(2)), "features": int(last.group(3)), "corpus_units": int(last.group(4)),
+                   "worker_oom": int(last.group(6)), "worker_timeouts": int(last.group(7)), "worker_crashes": int(last.group(8))})
+    else:
+        inconclusive.append("fuzz session (%s) printed no statistics: %s" % (cfg, tail(out, 4).replace("\n", " | ")))
+    arts = sorted(glob.glob(art + "*"))
+    crashes = [a for a in arts if os.path.basename(a).startswith("crash-")]
+    others = [a for a in arts if not os.path.basename(a).startswith("crash-")]
+    if others or (last and (int(last.group(6)) or int(last.group(7)))):
+        inconclusive.append("fuzz session (%s): %d worker(s) ran out of memory or time (%s)" % (cfg, len(others), ", ".join(os.path.basename(a) for a in others[:3])))
+    seen = set()
+    for a in crashes[:8]:
+        # reproduce the unit alone to get its own report
+        r = subprocess.run(cmd[:cmd.index(corpus)] + [a, "--", "-timeout=10", "-rss_limit_mb=3000"], cwd=FUZZER, env=env, stdout=subprocess.PIPE, stderr=subprocess.STDOUT, text=True, errors="replace", timeout=300)
+        rep = r.stdout
+        m = re.search(r"ERROR: AddressSanitizer: ([^\n]*)", rep)
+        kind = ("AddressSanitizer: " + m.group(1).strip()[:100]) if m else ("deadly signal" if "deadly signal" in rep else None)
+        if r.returncode == 0 or kind is None:
+            inconclusive.append("fuzz session (%s): unit %s ended a worker but does not reproduce alone (rc=%s)" % (cfg, os.path.basename(a), r.returncode))
+            continue
+        frame = common.first_repo_frame(rep[m.start():] if m else rep)
+        sig = "fuzz:%s:%s" % (kind.split(" on ")[0], frame)
+        if sig in seen:
+            continue
+        seen.add(sig)
+        os.makedirs(common.REPLAYS, exist_ok=True)
+        keep = os.path.join(common.REPLAYS, "%s-fuzz-%s-%s" % (prop, tag, os.path.basename(a)))
+        shutil.copyfile(a, keep)
+        body = {"property": prop, "engine": "fuzz", "config": cfg, "debug_assertions": debug_assertions, "what": kind, "first_frame_in_crate": frame, "unit_file": keep,
+                "unit_hex": open(a, "rb").read()[:4096].hex(), "layout": "[selector][exponent i32 LE][split u16 LE][integer bytes ++ fraction bytes] (fuzzer/fuzz/fuzz_targets/bytes.rs)", "report": tail(rep[m.start():m.start() + 5000] if m else rep, 50)}
+        path = write_replay(prop, sd, 800000 + len(violations), body)
+        violations.append({"sig": sig, "what": "%s at %s (libFuzzer+ASan, %s%s)" % (kind, frame, cfg, ", debug assertions" if debug_assertions else ""), "replay": path, "job": "fuzz-" + tag})
+    ev["crashing_units"] = len(crashes)
+    return ev
+
+
 def p_c08(prop, tier):
     sc = common.budget_scale()
     if tier == "quick":
-        cells = [("default", "rel", "miri-sb", 4), ("default", "chk", "miri-sb", 2), ("alloc", "rel", "miri-sb", 2), ("nostd+compact", "rel", "miri-sb", 2), ("default", "rel", "miri-tb", 2), ("compact", "chk", "miri-tb", 2)]
+        cells = [("default", "rel", "miri-sb", 4), ("default", "chk", "miri-sb", 2), ("alloc", "rel", "miri-sb", 2), ("nostd+compact", "rel", "miri-sb", 2), ("default", "rel", "miri-tb", 2), ("compact", "chk", "miri-tb", 2),
+                 ("default", "rel", "miri-sb-i686", 2)]  # 32-bit target: the 32-bit-limb big-integer code
         count = int(200 * sc)
         asan = [("default", "rel", 2), ("alloc", "rel", 1)]
         asan_budget = 12
         vg = []
     else:
         cells = [(c, p, i, 3) for c in ("default", "alloc", "compact", "nostd+compact", "compact+alloc") for p in ("rel", "chk") for i in ("miri-sb", "miri-tb")]
+        cells += [(c, p, "miri-sb-i686", 3) for c in ("default", "alloc") for p in ("rel", "chk")]
         count = int(3000 * sc)
         asan = [("default", "rel", 4), ("alloc", "rel", 3), ("compact", "rel", 2), ("nostd+compact", "rel", 2), ("default", "chk", 2)]
         asan_budget = 120
@@ -706,7 +820,11 @@ def p_c08(prop, tier):
                 t["executions"] += r.summary["evals"]
                 t["shards"] += 1
                 t["clean_panics"] += r.summary.get("counters", {}).get("panicked_cleanly", 0)
-            if r.summary and r.job.instr.startswith("miri"):
+            if r.summary and r.job.instr == "miri-sb-i686":
+                # a different platform: a differing VALUE there is not a memory-safety matter (C01 judges it); recorded only
+                k = (r.job.cfg, r.job.prof, r.idx, r.job.shards)
+                cov.setdefault("i686_shards_compared_with_native_x86_64", {"same": 0, "different": 0})["same" if nat.get(k) == r.summary["extra"].get("result_hash") else "different"] += 1
+            elif r.summary and r.job.instr.startswith("miri"):
                 k = (r.job.cfg, r.job.prof, r.idx, r.job.shards)
                 if k in nat:
                     n += 1
@@ -721,7 +839,16 @@ def p_c08(prop, tier):
                 cov["unsafe_line_coverage_of_the_driver"] = unsafe_coverage(prop, sd, workdir, ["default", "alloc", "compact", "nostd+compact"], 300000)
             except Exception as e:  # evidence only: never affects the verdict
                 cov["unsafe_line_coverage_of_the_driver"] = {"error": str(e)}
-        for tool in (["miri-sb", "miri-tb", "asan"] + (["valgrind"] if tier == "thorough" else [])):
+        # coverage-guided arbitrary bytes under AddressSanitizer (libFuzzer): finds the narrow byte / length / exponent
+        # coincidences that a fixed generator does not aim at
+        fz = []
+        plan = [("default", False, 25)] if tier == "quick" else [("default", False, 420), ("alloc", False, 180), ("compact", False, 180), ("nostd+compact", False, 120), ("default", True, 120)]
+        for (c, dbg, secs) in plan:
+            fz.append(fuzz_session(prop, sd, workdir, max(10, int(secs * common.budget_scale())), c, violations, inconclusive, dbg))
+        cov["coverage_guided_fuzzing"] = fz
+        if not any(f.get("executions", 0) > 0 for f in fz):
+            inconclusive.append("no execution completed under libFuzzer+ASan")
+        for tool in (["miri-sb", "miri-tb", "miri-sb-i686", "asan"] + (["valgrind"] if tier == "thorough" else [])):
             if per_tool.get(tool, {}).get("executions", 0) == 0:
                 inconclusive.append("no execution completed under %s" % tool)
 
@@ -963,5 +1090,9 @@ def setup():
             if err:
                 ok = False
                 print(err)
-    print("setup: built %d native/asan cells and %d interpreter cells in %.0fs" % (len(cells), len(mcells), time.time() - t0))
+    _, ferr = fuzz_build("default")
+    if ferr:
+        ok = False
+        print("fuzz target does not build:\n" + ferr)
+    print("setup: built %d native/asan cells, %d interpreter cells and the fuzz target in %.0fs" % (len(cells), len(mcells), time.time() - t0))
     return 0 if ok else 1
